@@ -22,6 +22,16 @@ pub const MODE_YIELD: u8 = 3;
 
 pub const NPOINTS: usize = 64;
 
+/// Array slot of a point id: ordinary points use their id, the (few) in-lock points 1000+k use slot 56+k.
+fn slot(id: u32) -> Option<usize> {
+    if id >= ractor::verif::pt::IN_LOCK_BASE {
+        let k = (id - ractor::verif::pt::IN_LOCK_BASE) as usize;
+        (k < 8).then_some(56 + k)
+    } else {
+        ((id as usize) < 56).then_some(id as usize)
+    }
+}
+
 #[derive(Default)]
 struct SchedState {
     prng: Option<Prng>,
@@ -142,9 +152,13 @@ impl Ctl {
         self.tap_on.store(t.is_some(), Ordering::SeqCst);
         *self.tap.write().unwrap() = t;
     }
+    /// Pair two points. An in-lock point may be paired too: the thread then waits *under that lock*, for at most `rdv_spins`
+    /// spin iterations (bounded, so it cannot deadlock) — only meaningful when the partner point can be reached without the lock.
     pub fn set_rendezvous(&self, a: u32, b: u32) {
-        self.rdv_partner[a as usize].store(b, Ordering::SeqCst);
-        self.rdv_partner[b as usize].store(a, Ordering::SeqCst);
+        if let (Some(sa), Some(sb)) = (slot(a), slot(b)) {
+            self.rdv_partner[sa].store(sb as u32 + 1, Ordering::SeqCst);
+            self.rdv_partner[sb].store(sa as u32 + 1, Ordering::SeqCst);
+        }
     }
     pub fn push_override(&self, kind: u32, v: u64) {
         self.sched.lock().unwrap().overrides.entry(kind).or_default().push(v);
@@ -171,20 +185,21 @@ impl Ctl {
         if r >= intensity {
             return;
         }
-        // rendezvous first (never under a lock)
-        if !in_lock && (id as usize) < NPOINTS {
-            let partner = self.rdv_partner[id as usize].load(Ordering::Relaxed);
+        // rendezvous first (under a lock only when the scenario paired an in-lock point explicitly: bounded spin)
+        if let Some(me) = slot(id) {
+            let partner = self.rdv_partner[me].load(Ordering::Relaxed);
             if partner != 0 {
-                self.rdv_at[id as usize].store(true, Ordering::SeqCst);
+                let partner = (partner - 1) as usize;
+                self.rdv_at[me].store(true, Ordering::SeqCst);
                 let mut met = false;
                 for _ in 0..self.rdv_spins.load(Ordering::Relaxed) {
-                    if self.rdv_at[partner as usize].load(Ordering::SeqCst) {
+                    if self.rdv_at[partner].load(Ordering::SeqCst) {
                         met = true;
                         break;
                     }
                     std::hint::spin_loop();
                 }
-                self.rdv_at[id as usize].store(false, Ordering::SeqCst);
+                self.rdv_at[me].store(false, Ordering::SeqCst);
                 if met {
                     self.rdv_met.fetch_add(1, Ordering::Relaxed);
                 }
@@ -229,9 +244,10 @@ impl Controller for Ctl {
                 // (Miri) yield at about half of the points, chosen by the per-thread seeded PRNG
                 // (Miri) a per-scenario subset of the points yields almost always, the rest rarely: with
                 // -Zmiri-preemption-rate=0 this is a seeded scheduler over the H1 points
-                if !in_lock && (id as usize) < NPOINTS {
+                if !in_lock && (id as usize) < 56 {
                     let partner = self.rdv_partner[id as usize].load(Ordering::Relaxed);
                     if partner != 0 {
+                        let partner = partner - 1;
                         // rendezvous by yielding: wait (bounded) until the partner thread stands at its point
                         self.rdv_at[id as usize].store(true, Ordering::SeqCst);
                         let mut met = false;
